@@ -710,10 +710,6 @@ func (d Decimal) Uint32() (uint32, bool) {
 		return math.MaxUint32, false
 	}
 
-	if d.Signbit() {
-		return 0, false
-	}
-
 	sig, exp := d.decompose()
 	exp -= exponentBias
 
@@ -734,6 +730,11 @@ func (d Decimal) Uint32() (uint32, bool) {
 	for sig[1] == 0 && exp > 0 {
 		sig = sig.mul64(10)
 		exp--
+	}
+
+	if d.Signbit() {
+		// negative values whose integer part is zero (-0, -0.5) still fit
+		return 0, sig[0]|sig[1] == 0
 	}
 
 	if sig[1] != 0 || exp != 0 {
@@ -765,10 +766,6 @@ func (d Decimal) Uint64() (uint64, bool) {
 		return math.MaxUint64, false
 	}
 
-	if d.Signbit() {
-		return 0, false
-	}
-
 	sig, exp := d.decompose()
 	exp -= exponentBias
 
@@ -789,6 +786,11 @@ func (d Decimal) Uint64() (uint64, bool) {
 	for sig[1] == 0 && exp > 0 {
 		sig = sig.mul64(10)
 		exp--
+	}
+
+	if d.Signbit() {
+		// negative values whose integer part is zero (-0, -0.5) still fit
+		return 0, sig[0]|sig[1] == 0
 	}
 
 	if sig[1] != 0 || exp != 0 {
